@@ -297,6 +297,12 @@ func c12Follower(c *Ctx) {
 					st.Emit("wait", "", ins)
 				}
 			},
+			// a deferred markDone/delete runs on the follower's return just the same
+			Deferred: func(st *State, d *ssa.Defer) {
+				if n := callee(d); n == "(*desync.request).markDone" || n == "(*desync.queue).delete" {
+					st.Emit("leader-op", "", d)
+				}
+			},
 			Return: func(st *State, ret *ssa.Return, results []Val) {
 				followers++
 				if st.Count("wait") != 1 || st.Has("upstream") || st.Has("leader-op") {
